@@ -44,7 +44,16 @@ def grid_script(tab, rng, tier):
     for n in cn:
         for v in sorted(G[n]):
             L.append("cset %s %d" % (n, v))
+    L += ["papply", "csetparams 0 3", "creset 2", "creset 1", "creset 3"]
+    # stage: mid-frame with compressed data still pending (the output buffer was too small to take it)
+    L += ["new", "cbeginp"]
+    for n in cn:
+        for v in sorted(G[n])[::2]:
+            L.append("cset %s %d" % (n, v))
     L += ["papply", "creset 2", "creset 1", "creset 3"]
+    # all-or-nothing batch setter: rejected calls change nothing, whatever frame parameters they carried
+    for fl in (1, 2, 4, 7, 0):
+        L += ["new", "cset checksumFlag %d" % (1 - (fl & 1)), "cset contentSizeFlag %d" % (1 - ((fl >> 1) & 1)), "csetparams 1 %d" % fl, "cframe 2000", "csetparams 0 %d" % fl, "cframe 2000"]
     # stage: after error
     L += ["new", "cfail"]
     for n in cn:
